@@ -1059,9 +1059,16 @@ func TestRun(t *testing.T) {
 	log.SetOutput(io.Discard)
 	h := hx.Open()
 	defer h.Close()
+	stuck := 0
 	run := func(op string) string {
+		if stuck >= 3 && hx.ReplayOps() == nil {
+			return "-" // three ops already hung (each costs seconds): the witnesses are recorded, stop generating
+		}
 		obs := exec(op)
 		h.Emit(op, obs)
+		if strings.Contains(obs, "blocked") || strings.Contains(obs, "undelivered") {
+			stuck++
+		}
 		return obs
 	}
 	if ops := hx.ReplayOps(); ops != nil {
